@@ -42,6 +42,20 @@ def gen_cases(tier, seed):
             spec['plan']['faults'] = [{'at': f't0/s3:GetObject:{C * rng.randrange(0, 3)}#0', 'phase': 'body', 'bytes': rng.randrange(0, C),
                                        'kind': 'connreset', 'tag': 'FAULT-r'}]
         cases.append(spec)
+    # several non-seekable ranged downloads competing for a tiny window, with a thread preempted at each statement of the
+    # sliding-window semaphore (and the defer-queue submission) until the others have run as far as they can
+    from .. import windows
+
+    lines = [l for l in windows.candidate_lines() if l[2].startswith(('SlidingWindowSemaphore', 'BoundedExecutor.submit', 'DownloadNonSeekableOutputManager'))]
+    for line in lines:
+        for rep in range(2 if quick else 8):
+            n = rng.choice([2, 3])
+            cfg = dict(multipart_threshold=8, multipart_chunksize=8, io_chunksize=4, max_request_concurrency=rng.choice([2, 3, 4]),
+                       max_submission_concurrency=n, max_in_memory_download_chunks=rng.choice([1, 1, 2]), max_io_queue_size=rng.choice([1, 1000]))
+            ts = [{'kind': 'download', 'dst': rng.choice(['nonseekable', 'fifo']), 'size': rng.choice([24, 33, 41])} for _ in range(n)]
+            w = {'file': line[0], 'lineno': line[1], 'name': f'{line[0]}:{line[1]}:{line[2]}', 'nth': rng.randrange(0, 6), 'action': 'pause', 'wait': 0.2}
+            cases.append({'seed': rng.randrange(1 << 30), 'config': cfg, 'transfers': ts, 'yield': {'p': rng.choice([0.0, 0.1]), 'window': w},
+                          'plan': {'delay_p': rng.choice([0.0, 0.3])}})
     if not quick:
         MB = 1024 * 1024
         for src in ('seekable', 'nonseekable'):
